@@ -208,6 +208,22 @@ def nonempty_guard(rep, M, rid, fq, name, fl, site):
 
 def builders_total(rep, M, rid):
     """failure-freedom clauses of the prototype-cell search (used by C01 / C17: 'returns normally')"""
+    # the candidates kept by the metric filter include the one with the maximal metric: `metric == max` (or `>=`), never `!=` / `<`
+    nmax = 0
+    for fqm in (PF + "._find_best_basis", PF + "._find_best_2d_basis"):
+        fnm = M.func(fqm)
+        maxes = {s2.targets[0].id for s2 in ast.walk(fnm) if isinstance(s2, ast.Assign) and isinstance(s2.targets[0], ast.Name) and isinstance(s2.value, ast.Call)
+                 and isinstance(s2.value.func, ast.Attribute) and s2.value.func.attr == "max" and not s2.value.args}
+        for c in [x for x in ast.walk(fnm) if isinstance(x, ast.Compare) and len(x.ops) == 1 and isinstance(x.comparators[0], ast.Name) and x.comparators[0].id in maxes]:
+            nmax += 1
+            if isinstance(c.ops[0], (ast.Eq, ast.GtE)):
+                rep.ok(rid, f"{fqm.split('.')[-1]}: `{norm(c)}` keeps the candidates with the maximal metric")
+            else:
+                rep.violation(rid, f"{fqm.split('.')[-1]}: `{norm(c)}`", "the filter on the summed metric drops the candidates with the *maximal* metric and keeps the others: "
+                              "the basis is chosen among span combinations that repeat less often than the best one (or among none)", M.where(fqm, c))
+    if nmax < 2:
+        raise AnalysisError(f"metric filters against the maximum recognised at {nmax} site(s); both basis searches have one")
+
     for name in ("_find_proto_cell_3d", "_find_proto_cell_2d"):
         fq = PF + "." + name
         fn = M.func(fq)
@@ -262,6 +278,12 @@ def masked_index_spaces(rep, M, rid):
                 if used and elementwise:
                     masked[s2.targets[0].id] = masked[next(iter(used))]
                     changed = True
+                    if isinstance(s2.value, ast.Call) and (M.ext_name(fq, s2.value.func) or "") == "numpy.linalg.norm":
+                        ax = next((k.value for k in s2.value.keywords if k.arg == "axis"), None)
+                        if not (isinstance(ax, ast.Constant) and ax.value in (1, -1)):
+                            rep.violation(rid, f"_find_proto_cell: `{norm(s2)[:60]}`", "the length of each periodic cell vector is a norm over axis 1 of the (vectors x 3) array; "
+                                          "over another axis the result has one entry per Cartesian component, and the filter built from it no longer lines up with the vectors",
+                                          M.where(fq, s2))
     full = {norm(s2.targets[0]) for s2 in ast.walk(fn) if isinstance(s2, ast.Assign) and isinstance(s2.value, ast.Call)
             and (M.ext_name(fq, s2.value.func) or "") in ("numpy.array", "numpy.zeros", "numpy.ones") and s2.value.args
             and ((isinstance(s2.value.args[0], (ast.Tuple, ast.List)) and len(s2.value.args[0].elts) == 3) or (isinstance(s2.value.args[0], ast.Constant) and s2.value.args[0].value == 3))}
@@ -557,6 +579,8 @@ def run(rep, ctx):
     with rep.guard("R04.1"):
         r04_1(rep, M, "R04.1")
         merged_region_is_larger(rep, M, "R04.1")
+        from . import c03 as _c03m
+        _c03m.merged_not_kept_twice(rep, M, "R04.1")
     rep.rule("R04.2", "prototype cells are periodic in three directions (3D builder) or exactly (a, b) (2D builder, reduced cells) (shared with C01)")
     with rep.guard("R04.2"):
         c01.r01_5(rep, M, "R04.2")
